@@ -41,15 +41,16 @@ type kve struct {
 type store struct {
 	c    *cache.Cache[key, uint64]
 	base time.Time
+	unit time.Duration // unit of the relative times in the case (seconds; milliseconds for the expiry cases)
 }
 
 func newStore(size int) *store {
 	// a long cleaner interval: the background sweep never runs during a case
-	return &store{c: cache.New[key, uint64](cache.Opts{Size: size, CleanerInterval: time.Hour}), base: time.Now()}
+	return &store{c: cache.New[key, uint64](cache.Opts{Size: size, CleanerInterval: time.Hour}), base: time.Now(), unit: time.Second}
 }
 
-func (s *store) at(rel int64) time.Time { return s.base.Add(time.Duration(rel) * time.Second) }
-func (s *store) rel(t time.Time) int64  { return int64(t.Sub(s.base) / time.Second) }
+func (s *store) at(rel int64) time.Time { return s.base.Add(time.Duration(rel) * s.unit) }
+func (s *store) rel(t time.Time) int64  { return int64(t.Sub(s.base) / s.unit) }
 
 func (s *store) rng() []kve {
 	var out []kve
@@ -298,6 +299,218 @@ func runFill(w *hx.Writer, id string, size, n int) {
 	})
 }
 
+// ---------- fill scripts: capacity after histories with Flush / gc / Close ----------
+
+type fstep struct {
+	kind string // stores flush gc close len
+	from int
+	n    int
+	now  int64
+}
+
+func (f fstep) coq() string {
+	switch f.kind {
+	case "stores":
+		return hx.App("FStores", hx.Ni(f.from), hx.Ni(f.n))
+	case "flush":
+		return "FFlush"
+	case "gc":
+		return hx.App("FGc", hx.Z(f.now))
+	case "close":
+		return "FClose"
+	}
+	return "FLen"
+}
+
+func runFillSeq(w *hx.Writer, id string, size int, steps []fstep) {
+	s := newStore(size)
+	defer s.c.Close()
+	var stepsC []string
+	var lens []int
+	maxLen := 0
+	for _, f := range steps {
+		switch f.kind {
+		case "stores":
+			for j := 0; j < f.n; j++ {
+				s.c.Store(key(f.from+j), uint64(f.from+j), s.at(3600))
+			}
+		case "flush":
+			s.c.Flush()
+		case "gc":
+			s.c.VerifGC(s.at(f.now))
+		case "close":
+			s.c.Close()
+		default:
+			l := s.c.Len()
+			lens = append(lens, l)
+			if l > maxLen {
+				maxLen = l
+			}
+		}
+		stepsC = append(stepsC, f.coq())
+	}
+	w.Emit("fillseq", hx.Case{
+		ID:   id,
+		Coq:  hx.App("CFillSeq", hx.Z(int64(size)), hx.List(stepsC), hx.NList(lens)),
+		Desc: map[string]any{"kind": "fillseq", "size": size, "steps": len(steps), "max_len": maxLen},
+		FKey: "fillseq",
+	})
+}
+
+// catFill: fill beyond the capacity, flush, fill beyond it again, sweep everything, fill again,
+// close the cleaner, fill again; Len after every step. Every key is stored once.
+func catFill(size int) []fstep {
+	n := 64*perShard(size) + 70
+	L := fstep{kind: "len"}
+	st := func(from int) fstep { return fstep{kind: "stores", from: from, n: n} }
+	return []fstep{
+		st(0), L, {kind: "flush"}, L, st(10000), L, {kind: "flush"}, st(20000), L,
+		{kind: "gc", now: 100000}, L, st(30000), L, {kind: "gc", now: 0}, L,
+		{kind: "close"}, st(40000), L, {kind: "flush"}, L, st(50000), L,
+	}
+}
+
+func genFill(r *hx.RNG) (int, []fstep) {
+	size := hx.Pick(r, sizes)
+	capa := 64 * perShard(size)
+	var steps []fstep
+	next := 0
+	stores := func(n int) {
+		steps = append(steps, fstep{kind: "stores", from: next, n: n})
+		next += n
+	}
+	L := fstep{kind: "len"}
+	if r.Chance(1, 2) {
+		stores(r.Range(0, 60))
+	}
+	k := r.Range(2, 5)
+	closed := false
+	for i := 0; i < k; i++ {
+		switch x := r.Intn(10); {
+		case x < 6:
+			steps = append(steps, fstep{kind: "flush"})
+		case x < 8:
+			steps = append(steps, fstep{kind: "gc", now: hx.Pick(r, []int64{0, 3600, 100000})})
+		case x < 9 && !closed:
+			steps = append(steps, fstep{kind: "close"})
+			closed = true
+		}
+		if r.Chance(1, 3) {
+			steps = append(steps, L)
+		}
+		// a long run of distinct keys, around or beyond the capacity
+		stores(hx.Pick(r, []int{capa - r.Range(1, 40), capa + r.Range(0, 3), capa + r.Range(20, 250)}))
+		steps = append(steps, L)
+		if r.Chance(1, 3) {
+			stores(r.Range(1, 80))
+			steps = append(steps, L)
+		}
+	}
+	return size, steps
+}
+
+// ---------- expiry a few milliseconds ahead: a lookup after it must miss ----------
+
+type ekey struct {
+	k, v uint64
+	near bool // expires a few ms after the start; otherwise an hour later
+}
+
+// runExpiry stores keys whose expiry lies X+3j ms ahead, checks that every Store really took
+// place before the first expiry (otherwise it starts over with twice the X), waits until the
+// clock has passed the last near expiry (waiting longer never hurts) and then looks the keys
+// up: nothing but time passing lies between Store and Get -- no sweep, no eviction.
+// Relative times in the case are milliseconds.
+func runExpiry(w *hx.Writer, id string, size int, keys []ekey, gets []int, lookAll bool) {
+	x := int64(40)
+	for attempt := 0; attempt < 7; attempt, x = attempt+1, x*2 {
+		s := newStore(size)
+		s.unit = time.Millisecond
+		var opsC, obsC []string
+		var last int64
+		exp := make([]int64, len(keys))
+		for j, k := range keys {
+			exp[j] = 3600000
+			if k.near {
+				exp[j] = x + 3*int64(j)
+				last = exp[j]
+			}
+			o := op{kind: "store", k: k.k, v: k.v, t: exp[j]}
+			obsC = append(obsC, s.do(o))
+			opsC = append(opsC, hx.Tuple(o.coq(), hx.Z(0), "[]"))
+		}
+		present := len(s.rng()) == len(keys)
+		if !present || time.Since(s.base) >= time.Duration(x)*time.Millisecond {
+			s.c.Close() // too slow: some Store may have seen its expiry already; start over
+			continue
+		}
+		for time.Since(s.base) <= time.Duration(last+2)*time.Millisecond {
+			time.Sleep(time.Duration(last+3)*time.Millisecond - time.Since(s.base))
+		}
+		run := func(o op) {
+			now := int64(time.Since(s.base) / time.Millisecond) // the call's own clock reading comes later
+			obsC = append(obsC, s.do(o))
+			opsC = append(opsC, hx.Tuple(o.coq(), hx.Z(now), "[]"))
+		}
+		for _, j := range gets {
+			run(op{kind: "get", k: keys[j].k})
+		}
+		if lookAll { // every expired key was looked up (and thereby removed): Len and Range are exact
+			run(op{kind: "len"})
+			run(op{kind: "range"})
+		}
+		s.c.Close()
+		w.Emit("expiry", hx.Case{
+			ID:   id,
+			Coq:  hx.App("CSeqT", hx.Z(int64(size)), hx.List(opsC), hx.List(obsC)),
+			Desc: map[string]any{"kind": "expiry", "size": size, "keys": len(keys), "ahead_ms": x, "attempt": attempt},
+			FKey: "expiry",
+		})
+		return
+	}
+	w.Tally("expiry-dropped-slow", 1)
+}
+
+func genExpiry(r *hx.RNG) (int, []ekey, []int, bool) {
+	size := hx.Pick(r, sizes)
+	n := r.Range(1, 6)
+	s0 := uint64(r.Intn(64))
+	keys := make([]ekey, n)
+	anyNear := false
+	for j := range keys {
+		k := s0 + 64*uint64(j)
+		if r.Chance(1, 3) {
+			k = uint64(r.Intn(200))*64 + uint64(r.Intn(64))
+		}
+		for i := 0; i < j; i++ {
+			if keys[i].k == k {
+				k += 64 * 300
+			}
+		}
+		keys[j] = ekey{k: k, v: uint64(100 + j), near: r.Chance(2, 3)}
+		anyNear = anyNear || keys[j].near
+	}
+	if !anyNear {
+		keys[0].near = true
+	}
+	var gets []int
+	all := true
+	for _, j := range r.Perm(n) {
+		if r.Chance(5, 6) {
+			gets = append(gets, j)
+			if r.Chance(1, 3) {
+				gets = append(gets, j) // the second lookup finds nothing either
+			}
+		} else if keys[j].near {
+			all = false
+		}
+	}
+	if len(gets) == 0 {
+		gets, all = []int{0}, n == 1 || all
+	}
+	return size, keys, gets, all
+}
+
 // ---------- concurrent histories ----------
 
 type event struct {
@@ -536,9 +749,26 @@ func genConc(r *hx.RNG) (int, int, [][]op) {
 
 // ---------- Len sampled under concurrent writers ----------
 
-func runLenMax(w *hx.Writer, id string, size, writers, perWriter int) {
+// With flusher: a goroutine flushes (and sweeps with a clock reading that removes nothing) when
+// writer 0 has done a quarter and a half of its stores, so the bound is checked on stores that
+// come after a Flush, concurrently with it.
+func runLenMax(w *hx.Writer, id string, size, writers, perWriter int, flusher bool) {
 	s := newStore(size)
 	defer s.c.Close()
+	sig := make(chan struct{}, 4)
+	var fw sync.WaitGroup
+	flushes := 0
+	if flusher {
+		fw.Add(1)
+		go func() {
+			defer fw.Done()
+			for range sig {
+				s.c.Flush()
+				s.c.VerifGC(s.at(0))
+				flushes++
+			}
+		}()
+	}
 	var maxLen atomic.Int64
 	stop := make(chan struct{})
 	var sw sync.WaitGroup
@@ -563,6 +793,9 @@ func runLenMax(w *hx.Writer, id string, size, writers, perWriter int) {
 		go func(t int) {
 			defer wg.Done()
 			for j := 0; j < perWriter; j++ {
+				if flusher && t == 0 && (j == perWriter/4 || j == perWriter/2) {
+					sig <- struct{}{}
+				}
 				s.c.Store(key(t*perWriter+j), uint64(j), s.at(3600))
 				if j%97 == 0 {
 					s.c.Get(key(j))
@@ -571,6 +804,18 @@ func runLenMax(w *hx.Writer, id string, size, writers, perWriter int) {
 		}(t)
 	}
 	wg.Wait()
+	close(sig)
+	fw.Wait()
+	if flusher { // whatever the timing was: at least one Flush precedes this last overfill
+		for j := 0; j < 64*perShard(size)+100; j++ {
+			s.c.Store(key(1<<32+j), uint64(j), s.at(3600))
+			if j%64 == 0 {
+				if l := int64(s.c.Len()); l > maxLen.Load() {
+					maxLen.Store(l)
+				}
+			}
+		}
+	}
 	close(stop)
 	sw.Wait()
 	if l := int64(s.c.Len()); l > maxLen.Load() {
@@ -579,7 +824,7 @@ func runLenMax(w *hx.Writer, id string, size, writers, perWriter int) {
 	w.Emit("lenmax", hx.Case{
 		ID:   id,
 		Coq:  hx.App("CLenMax", hx.Z(int64(size)), hx.N(uint64(maxLen.Load()))),
-		Desc: map[string]any{"kind": "lenmax", "size": size, "writers": writers, "max_len": maxLen.Load()},
+		Desc: map[string]any{"kind": "lenmax", "size": size, "writers": writers, "flushes": flushes, "max_len": maxLen.Load()},
 		FKey: "lenmax",
 	})
 }
@@ -693,7 +938,48 @@ func main() {
 	for i, size := range []int{-1, 10, 1024, 1100} {
 		id := fmt.Sprintf("cat:lenmax:%d", i)
 		if o.Want(id) {
-			runLenMax(w, id, size, 4, 1500)
+			runLenMax(w, id, size, 4, 1500, false)
+		}
+		id = fmt.Sprintf("cat:lenmaxflush:%d", i)
+		if o.Want(id) {
+			runLenMax(w, id, size, 4, 1500, true)
+		}
+	}
+	// catalogue: fill beyond capacity, flush, fill again, sweep, fill again, close, fill again
+	for _, size := range sizes {
+		id := fmt.Sprintf("cat:fillseq:%d", size)
+		if o.Want(id) {
+			runFillSeq(w, id, size, catFill(size))
+		}
+	}
+	// catalogue: expiry a few milliseconds ahead (in the background; no other case is timed)
+	{
+		N, F := true, false
+		type ec struct {
+			keys []ekey
+			gets []int
+			all  bool
+		}
+		ecs := []ec{
+			{[]ekey{{1, 11, N}}, []int{0}, true},
+			{[]ekey{{1, 11, N}}, []int{0, 0}, true},
+			{[]ekey{{1, 11, N}, {65, 12, F}}, []int{1, 0, 1}, true},
+			{[]ekey{{5, 51, N}, {69, 52, N}, {133, 53, N}, {6, 54, F}}, []int{2, 0, 1, 3}, true},
+			{[]ekey{{5, 51, N}, {69, 52, N}, {6, 54, F}}, []int{1, 2}, false}, // key 5 stays unlooked
+			{[]ekey{{1<<63 + 9, 91, N}, {9, 92, F}, {73, 93, N}}, []int{0, 1, 2, 0, 2}, true},
+		}
+		for i, x := range ecs {
+			for j, size := range []int{10, 1100} {
+				id := fmt.Sprintf("cat:expiry:%d:%d", i, j)
+				if !o.Want(id) {
+					continue
+				}
+				bg.Add(1)
+				go func(id string, size int, x ec) {
+					defer bg.Done()
+					runExpiry(w, id, size, x.keys, x.gets, x.all)
+				}(id, size, x)
+			}
 		}
 	}
 
@@ -718,13 +1004,33 @@ func main() {
 		size, g, scripts := genConc(r)
 		runConc(w, id, r, size, g, scripts)
 	}
-	nl := o.Count(4, 60)
+	nf := o.Count(40, 1200)
+	for i := 0; i < nf; i++ {
+		id := fmt.Sprintf("fillseq:%d", i)
+		if !o.Want(id) {
+			continue
+		}
+		r := hx.NewRNG(o.Seed, id)
+		size, steps := genFill(r)
+		runFillSeq(w, id, size, steps)
+	}
+	ne := o.Count(24, 600)
+	for i := 0; i < ne; i++ {
+		id := fmt.Sprintf("expiry:%d", i)
+		if !o.Want(id) {
+			continue
+		}
+		r := hx.NewRNG(o.Seed, id)
+		size, keys, gets, all := genExpiry(r)
+		runExpiry(w, id, size, keys, gets, all)
+	}
+	nl := o.Count(6, 80)
 	for i := 0; i < nl; i++ {
 		id := fmt.Sprintf("lenmax:%d", i)
 		if !o.Want(id) {
 			continue
 		}
 		r := hx.NewRNG(o.Seed, id)
-		runLenMax(w, id, hx.Pick(r, sizes), r.Range(2, 8), r.Range(300, 1200))
+		runLenMax(w, id, hx.Pick(r, sizes), r.Range(2, 8), r.Range(300, 1200), r.Chance(2, 3))
 	}
 }
